@@ -112,9 +112,35 @@ func c06FlatSpans(td *trace.TracesData) []c06FlatSpan {
 	return out
 }
 
+// c06OtlpFaults: the writer reads the value of the service-name attributes it reaches without a nil check; a KeyValue
+// without a value there makes the parser fault (the request is answered with an error, nothing is stored)
+func c06OtlpFaults(merged []*v11.KeyValue) bool {
+	for _, n := range []string{"service.name", "peer.service", "faas.name", "k8s.deployment.name", "process.executable.name"} {
+		_, kv := c06CountKey(merged, n)
+		if kv == nil {
+			continue
+		}
+		if kv.Value == nil {
+			return true
+		}
+		if kv.Value.GetStringValue() != "" {
+			break
+		}
+	}
+	for _, n := range []string{"service.name", "faas.name", "k8s.deployment.name", "process.executable.name"} {
+		if _, kv := c06CountKey(merged, n); kv != nil && kv.Value == nil {
+			return true
+		}
+	}
+	return false
+}
+
 func c06OtlpAccepted(spans []c06FlatSpan) bool {
 	for _, s := range spans {
 		if len(s.span.TraceId) != 16 || len(s.span.SpanId) != 8 {
+			return false
+		}
+		if c06OtlpFaults(append(append([]*v11.KeyValue{}, s.span.Attributes...), s.res...)) {
 			return false
 		}
 	}
@@ -261,8 +287,8 @@ func c06OracleOtlp(r *h.Result, c *c06OtlpCase, rd *c06ReadResult) {
 	for i, fs := range spans {
 		s := fs.span
 		merged := append(append([]*v11.KeyValue{}, s.Attributes...), fs.res...)
-		got := &trace.Span{}
-		if rd.Spans[i] == nil || proto.Unmarshal(rd.Spans[i], got) != nil {
+		got := c06SpanOf(rd.Spans[i])
+		if got == nil {
 			V("C06/otlp-read-nil", fmt.Sprintf("span %d read back as nil", i))
 			continue
 		}
@@ -297,6 +323,36 @@ func c06OracleOtlp(r *h.Result, c *c06OtlpCase, rd *c06ReadResult) {
 			n, g := c06CountKey(got.Attributes, kv.Key)
 			if n != 1 || !proto.Equal(g, kv) {
 				V("C06/otlp-read-attribute", fmt.Sprintf("span %d: attribute %q read back changed or missing", i, kv.Key))
+				break
+			}
+		}
+		// the tag index and the span read back tell the same story: a scalar attribute read back under a key that no nested
+		// path flattens to has a tag row with its text (whichever duplicate the two sides keep, they keep the same one)
+		nested := map[string]bool{}
+		for _, kv := range merged {
+			for _, wr := range c06FlattenVal(kv.Key, kv.Value, nil) {
+				if wr.k != kv.Key {
+					nested[wr.k] = true
+				}
+			}
+		}
+		for _, kv := range got.Attributes {
+			if nested[kv.Key] || kv.Key == "service.name" || kv.Key == "name" || kv.Key == "remoteService.name" {
+				continue
+			}
+			wr := c06FlattenVal(kv.Key, kv.Value, nil)
+			if len(wr) != 1 || wr[0].k != kv.Key {
+				continue
+			}
+			found := false
+			for _, t := range w.Tags {
+				if bytes.Equal(t.Sid, w.Rows[i].Sid) && bytes.Equal(t.Tid, w.Rows[i].Tid) && t.Ts == w.Rows[i].Ts && t.Key == kv.Key && t.Val == wr[0].v {
+					found = true
+					break
+				}
+			}
+			if !found {
+				V("C06/otlp-read-vs-tag-index", fmt.Sprintf("span %d: attribute %q read back as %q has no tag row with that value", i, kv.Key, wr[0].v))
 				break
 			}
 		}
@@ -438,8 +494,8 @@ func c06OracleZip(r *h.Result, c *c06ZipCase, rd *c06ReadResult) {
 	}
 	for i, s := range c.spans {
 		e, row := &s.Exp, w.Rows[i]
-		got := &trace.Span{}
-		if rd.Spans[i] == nil || proto.Unmarshal(rd.Spans[i], got) != nil {
+		got := c06SpanOf(rd.Spans[i])
+		if got == nil {
 			V("C06/zipkin-read-nil", fmt.Sprintf("%s span %d read back as nil", fr, i))
 			continue
 		}
@@ -527,9 +583,9 @@ func c06RunOtlp(r *h.Result, rng *h.Rng, n int, tier string) error {
 		if acc {
 			r.Count("otlp:accepted")
 		} else {
-			r.Count("otlp:ids-not-16/8")
+			r.Count("otlp:ids-not-16/8-or-valueless-service-name")
 			if !c.w.Rej {
-				r.Violate("C06/otlp-bad-ids-stored", "OTLP request with a trace/span id that is not 16/8 bytes produced storable rows",
+				r.Violate("C06/otlp-bad-ids-stored", "OTLP request with a trace/span id that is not 16/8 bytes (or a service-name attribute without a value) produced storable rows",
 					c.replay("ids of a wrong length accepted"))
 			}
 		}
@@ -762,7 +818,7 @@ func c06RunForeign(r *h.Result, rng *h.Rng) error {
 			{Key: "service.name", Value: &v11.AnyValue{Value: &v11.AnyValue_StringValue{StringValue: "S"}}}}}
 	pb, _ := proto.Marshal(sp)
 	good := c06Row{Tid: tid, Sid: sid, Ts: 5, Dur: 4, Ptype: 2, Payload: pb}
-	goodTok := "2 " + h.Hex(tid) + " " + h.Hex(sid) + " 5 4 O " + strings.Join(c06SpanTokens(sp, nil), " ")
+	goodTok := "2 " + h.Hex(tid) + " " + h.Hex(sid) + " 5 4 O " + strconv.Itoa(int(pb[0])) + " " + strings.Join(c06SpanTokens(sp, nil), " ")
 	rowTok := func(pt int, payload string) string {
 		return fmt.Sprintf("%d %s %s 5 4 %s", pt, h.Hex(tid), h.Hex(sid), payload)
 	}
@@ -865,14 +921,20 @@ func c06(r *h.Result, rng *h.Rng, tier string, replay string) error {
 		rng = h.NewRng(rp.Seed)
 	}
 	nOtlp, nZip, nPrim := 300, 300, 2000
+	nTree, nView, nMixed, nPrim2 := 260, 150, 60, 600
 	if tier != "quick" {
 		nOtlp, nZip, nPrim = 10000, 10000, 60000
+		nTree, nView, nMixed, nPrim2 = 6000, 3000, 1500, 20000
 	}
-	r.Rule = "otlp: ≤4 resources × ≤5 spans in ≤2 scopes, attribute trees of depth ≤3 over all value kinds, service-name keys over-represented " +
+	r.Rule = "otlp: ≤4 resources × ≤5 spans in ≤2 scopes, attribute trees of depth ≤4 over all value kinds (duplicate keys at every level), service-name keys over-represented " +
 		"(strings, empty strings, other kinds, duplicates between span and resource), 1/7 of the requests with ids of any length; " +
 		"zipkin: 0–5 spans with unique member names in random order, ids of 1–40 hex digits (mixed case), string or numeric times, endpoints, " +
 		"string and non-string tags, every request through both framings, 1/5 of the requests with ill-formed members; " +
-		"non-trivial = at least one span with attributes (otlp) / two spans (zipkin); distinct by document"
+		"zipkin texts (tree level): span texts with duplicate members at every level, optional escapes in names and strings, raw non-UTF-8, lone surrogates, " +
+		"numeric strings, nested values to depth 4 (a corpus case to depth 301), all-0/all-f/empty/over-long ids, annotations, tags ≥ 64 KiB, white space and " +
+		"other data after the object, broken array framing, CRLF line ends; trees taken from jx and fastjson on the same bytes; mixed traces: 2–4 pushes of " +
+		"both protocols sharing a trace id; legacy OTLP/JSON payloads incl. ill-typed ones; " +
+		"non-trivial = at least one span with attributes (otlp) / two spans (zipkin) / one text (tree) / two spans of the trace (mixed); distinct by document"
 	if err := c06RunOtlp(r, rng.Fork(), nOtlp, tier); err != nil {
 		return err
 	}
@@ -880,6 +942,21 @@ func c06(r *h.Result, rng *h.Rng, tier string, replay string) error {
 		return err
 	}
 	if err := c06RunForeign(r, rng.Fork()); err != nil {
+		return err
+	}
+	if err := c06RunTree(r, rng.Fork(), nTree, tier); err != nil {
+		return err
+	}
+	if err := c06RunOtlpView(r, rng.Fork(), nView); err != nil {
+		return err
+	}
+	if err := c06RunMixed(r, rng.Fork(), nMixed); err != nil {
+		return err
+	}
+	if err := c06RunPrims2(r, rng.Fork(), nPrim2); err != nil {
+		return err
+	}
+	if err := c06RunOJson(r, rng.Fork(), nView); err != nil {
 		return err
 	}
 	if err := c06RunPrims(r, rng.Fork(), nPrim); err != nil {
